@@ -10,6 +10,8 @@ import io
 import json
 import random
 
+from vf import core
+
 import numpy as np
 
 from vf.oracles import taxonomy as TX
@@ -206,7 +208,7 @@ def run_api(sh, ctx):
 	for k, vs in byk.items():
 		if len(vs) > 1:
 			ctx.violation('differs-between-chunk-sizes', f'{k}: {len(vs)} different lists over chunk sizes', dict(key=k))
-	ctx.notes['digests'] = {sh['name']: {k: J.bits(0) + hash(tuple(sorted(vs))) % (2 ** 31) for k, vs in byk.items()}}
+	ctx.notes['digests'] = {sh['name']: {k: J.bits(0) + core.h64(sorted(list(v_) for v_ in vs)) % (2 ** 31) for k, vs in byk.items()}}
 	ctx.notes['digest_lists'] = {sh['name']: {k: list(next(iter(vs)))[:12] for k, vs in list(byk.items())[:400]}}
 
 
